@@ -4,6 +4,7 @@ import (
 	"encoding/json"
 	"fmt"
 	"math"
+	"math/big"
 	"math/rand"
 	"time"
 
@@ -152,6 +153,18 @@ func (s *session) hashPairs(b *valpool.Builder) error {
 		}
 	}
 	c.Set("lookalike_values", len(cands))
+	// field maps: the same record as a Go struct with typed fields, as a struct with `any` fields, and as
+	// an ordinary map (two insertion orders), with look-alike numbers in the fields
+	fms := fieldMapLookAlikes()
+	for i, x := range fms {
+		for j, y := range fms {
+			rec(x.v, y.v, -1, x.name, y.name, x.leafWith(y))
+			if i < j {
+				c.Distinct("fieldmap|" + x.name + "|" + y.name)
+			}
+		}
+	}
+	c.Set("fieldmap_values", len(fms))
 	// random related values
 	g := rand.New(rand.NewSource(c.Seed + 5))
 	nrand := c.Pick(3000, 60000)
@@ -322,5 +335,83 @@ func lookAlikes(b *valpool.Builder) []lookAlike {
 			lookAlike{"[&k=" + x.name + "]", vals.MakeMap("k", x.v), x.zero, "mapval"},
 			lookAlike{"[&" + x.name + "=v]", vals.MakeMap(x.v, "v"), x.zero, "mapkey"})
 	}
+	return out
+}
+
+// Harness field maps (structs with exported fields behave exactly like maps with dash-case keys).
+type fmTyped struct {
+	Path  string
+	Score float64
+	Count int
+	Flag  bool
+	Extra any
+}
+
+type fmAny struct {
+	Path  any
+	Score any
+	Count any
+	Flag  any
+	Extra any
+}
+
+// fmScore is shaped like storedefs.Dir.
+type fmScore struct {
+	Path  string
+	Score float64
+}
+
+func fieldMapLookAlikes() []lookAlike {
+	nan := math.NaN()
+	negz := math.Copysign(0, -1)
+	big1, _ := new(big.Int).SetString("18446744073709551617", 10)
+	scores := []struct {
+		name string
+		f    float64
+		zero int
+	}{{"0.0", 0, 1}, {"-0.0", negz, -1}, {"1.0", 1, 0}, {"NaN", nan, 0}, {"-NaN", math.Copysign(nan, -1), 0},
+		{"NaN:fff8", math.Float64frombits(0xfff8000000000000), 0}, {"+Inf", math.Inf(1), 0}, {"5e-324", math.SmallestNonzeroFloat64, 0}}
+	extras := []struct {
+		name string
+		v    any
+		zero int
+	}{{"i:1", 1, 0}, {"f:1.0", 1.0, 0}, {"f:0.0", 0.0, 1}, {"f:-0.0", negz, -1}, {"i:0", 0, 0}, {"z:2^64+1", big1, 0},
+		{"r:1/2", big.NewRat(1, 2), 0}, {"f:NaN", nan, 0}, {"[f:-0.0]", vals.MakeList(negz), -1}, {"[f:0.0]", vals.MakeList(0.0), 1}}
+	var out []lookAlike
+	add := func(name string, zero int, path string, score float64, count int, flag bool, extra any) {
+		w := "fm:" + name
+		out = append(out,
+			lookAlike{"struct{" + name + "}", fmTyped{path, score, count, flag, extra}, zero, w},
+			lookAlike{"anystruct{" + name + "}", fmAny{path, score, count, flag, extra}, zero, w},
+			lookAlike{"map{" + name + "}", vals.MakeMap("path", path, "score", score, "count", count, "flag", flag, "extra", extra), zero, w},
+			lookAlike{"map'{" + name + "}", vals.MakeMap("extra", extra, "flag", flag, "count", count, "score", score, "path", path), zero, w})
+	}
+	for _, sc := range scores {
+		// zero sign is part of the wrap name only through `zero`: records differing only in the sign of a
+		// zero share the wrap name so that leafWith recognises the +0.0/-0.0 pair
+		n := "score=" + sc.name
+		if sc.zero != 0 {
+			n = "score=zero"
+		}
+		add(n, sc.zero, "/p", sc.f, 3, true, "x")
+		out[len(out)-4].name, out[len(out)-3].name = "struct{score="+sc.name+"}", "anystruct{score="+sc.name+"}"
+		out[len(out)-2].name, out[len(out)-1].name = "map{score="+sc.name+"}", "map'{score="+sc.name+"}"
+		// the two-field shape of storedefs.Dir
+		w := "dir:" + n
+		out = append(out, lookAlike{"dir{score=" + sc.name + "}", fmScore{"/p", sc.f}, sc.zero, w},
+			lookAlike{"dirmap{score=" + sc.name + "}", vals.MakeMap("path", "/p", "score", sc.f), sc.zero, w})
+	}
+	for _, ex := range extras {
+		n := "extra=" + ex.name
+		if ex.zero != 0 {
+			n = "extra=zero:" + map[bool]string{true: "list", false: "num"}[ex.name[0] == '[']
+		}
+		add(n, ex.zero, "/p", 2.5, 0, false, ex.v)
+		out[len(out)-4].name, out[len(out)-3].name = "struct{extra="+ex.name+"}", "anystruct{extra="+ex.name+"}"
+		out[len(out)-2].name, out[len(out)-1].name = "map{extra="+ex.name+"}", "map'{extra="+ex.name+"}"
+	}
+	// int / bool / string fields
+	add("count=0", 0, "", 2.5, 0, false, nil)
+	add("count=1,flag", 0, "a\xff", 2.5, 1, true, nil)
 	return out
 }
